@@ -99,6 +99,7 @@ class Interp:
         self.assumed = set()
         self.max_unroll = 4096
         self.naming = False
+        self.merge_states_enabled = True
         self.concretizations = 0
         self.bounded_k = None                 # bounded stand-in mode: unroll symbolic loops at most k times
         self.bounded_cut = 0
@@ -473,13 +474,14 @@ class Interp:
             sa.pc.append(c)
             sb = s.clone()
             sb.pc.append(z3.Not(c))
+            self.narrow_optional(stmt.test, sa, sb)
             oa = self.exec_block(stmt.body, sa)
             ob = self.exec_block(stmt.orelse, sb) if stmt.orelse else [('next', sb, None)]
             na = [o for o in oa if o[0] == 'next']
             nb = [o for o in ob if o[0] == 'next']
             outs.extend(o for o in oa if o[0] != 'next')
             outs.extend(o for o in ob if o[0] != 'next')
-            if len(na) == 1 and len(nb) == 1:
+            if len(na) == 1 and len(nb) == 1 and self.merge_states_enabled:
                 try:
                     m = merge_states(base_len, c, na[0][1], nb[0][1])
                     outs.append(('next', m, None))
@@ -489,6 +491,28 @@ class Interp:
             outs.extend(na)
             outs.extend(nb)
         return outs
+
+    def narrow_optional(self, test, s_true, s_false):
+        """`x is None` / `x is not None` tests on an Optional-typed local (also as a conjunct of `and` / disjunct of `or` /
+        under `not`): in the branch where x is known not to be None the local is rebound to its value"""
+        if isinstance(test, ast.BoolOp):
+            for v in test.values:
+                if isinstance(test.op, ast.And):
+                    self.narrow_optional(v, s_true, None)
+                else:
+                    self.narrow_optional(v, None, s_false)
+            return
+        if isinstance(test, ast.UnaryOp) and isinstance(test.op, ast.Not):
+            self.narrow_optional(test.operand, s_false, s_true)
+            return
+        if isinstance(test, ast.Compare) and len(test.ops) == 1 and isinstance(test.left, ast.Name) \
+                and isinstance(test.comparators[0], ast.Constant) and test.comparators[0].value is None:
+            name = test.left.id
+            target = s_false if isinstance(test.ops[0], ast.Is) else (s_true if isinstance(test.ops[0], ast.IsNot) else None)
+            if target is not None:
+                v = target.frame.get(name)
+                if isinstance(v, Sym) and is_opt(v.ty):
+                    target.frame[name] = mk(opt_val(v.ty, v.t), v.ty[1])
 
     # ---- with
     def st_With(self, stmt, st):
@@ -1243,6 +1267,11 @@ class Interp:
         raise Unsupported('call of %r' % (f,))
 
     def call_method(self, recv, name, args, kwargs, st):
+        if isinstance(name, tuple) and name and name[0] == '$dyn':
+            mm = self.models.get('$dyn_method')
+            if mm is None:
+                raise Unsupported('method name computed at run time (getattr with a symbolic name)')
+            return mm(self, st, recv, name[1], args, kwargs)
         if isinstance(recv, Ref):
             p = st.get(recv)
             if isinstance(p, Obj) and not p.cls.startswith('<'):
